@@ -357,7 +357,8 @@ class StmtMixin:
             self.for_unordered(s, st, fr, un[0], un[1], spec, ordinal)
             return
         n, elem, conc = self.iter_desc(it, st, fr)
-        if conc is not None and spec is None:
+        if conc is not None:
+            # concrete iteration: unrolled (a loop spec, if any, is unused)
             broke = False
             for x in conc:
                 self.assign(s.target, x, st, fr)
@@ -371,8 +372,6 @@ class StmtMixin:
             if not broke:
                 self.exec_block(s.orelse, st, fr)
             return
-        if conc is not None:
-            raise Unsupported("loop spec on a concrete iteration")
         if spec is None:
             raise Unsupported(
                 f"loop #{ordinal} of {getattr(fr, 'inline_key', fr.func)} "
@@ -386,6 +385,7 @@ class StmtMixin:
             env = dict(fr.env)
             env["_k"] = VInt(k)
             env["_n"] = VInt(n)
+            env["_iter"] = it
             sub = Frame(fr.func, fr.cls, fr.contract, env=env, spec=True)
             sub.old = fr.old
             sub.entry_state = entry
